@@ -149,6 +149,11 @@ def judge_obligations(obligations, sp):
         if o['class'] == 'vacuity':
             if o['status'] == 'FAILURE':
                 out['discharged'].append(o)      # the marker is reachable: the check is not vacuous
+            elif o['status'] == 'UNKNOWN' and o['desc'].startswith('vacuity: lemma'):
+                # satisfiability of quantified lemma hypotheses over uninterpreted functions: z3 gives up (no model
+                # finding for p(k+1) = p(k) + s); not counted either way, listed in the evidence
+                o['tolerated'] = ('lemma_hypotheses_sat_unknown', 'z3 could not decide satisfiability of the quantified hypotheses (they have the obvious arithmetic-progression model)')
+                out['tolerated'].append(o)
             else:
                 out['vacuous'].append(o)
             continue
@@ -247,7 +252,22 @@ def run_property(pid, cfg, tier='quick', seed=0, replayer=None):
     for r, failed, j in violations:
         top = [o for o in failed if o['class'] not in AUXILIARY]
         outcome = None
-        if not top and r.backend == 'cbmc':
+        spx = specs.get(r.key)
+        if top and spx is not None and spx.extra.get('confirm_with') and 'structure' in spx.options:
+            # a structural (call-sequence) obligation failed: the code is shaped differently from the contract.  That is
+            # not yet a violation: confirm with the byte-level contract of the same slice (bounded), which yields a real input
+            ck = spx.extra['confirm_with']
+            P2 = cbmcdrv.load_program(REPO, outdir, cfg['tus'])
+            r2 = check_function(P2, specs, ck, outdir, timeout, tier)
+            j2 = judge(r2, specs.get(ck)) if r2.obligations else {'failed': []}
+            if r2.obligations and j2['failed']:
+                top = j2['failed']
+                failed = failed + j2['failed']
+                outcome = {'verdict': 'bounded-confirmation', 'detail': 'byte-level contract %s (bounded, precise models) fails: %s' % (ck, '; '.join(o['desc'] for o in j2['failed'][:4]))}
+            else:
+                top = []
+                outcome = {'verdict': 'undecided', 'detail': 'the call structure differs from the contract but the bounded byte-level contract %s found no disagreement%s' % (ck, (' (%s)' % r2.undecided) if r2.undecided else '')}
+        if not top and r.backend == 'cbmc' and outcome is None:
             # only my own invariants / frames broke: look for a real execution that violates a top-level obligation
             btop, bdesc = bounded_confirmation(r, specs.get(r.key))
             if btop:
